@@ -206,6 +206,9 @@ pub fn cmp3(a: &RVal, b: &RVal) -> Option<Ordering> {
 /// all pairs comparable under the specified order? (a sort with an inconsistent comparator
 /// must never be attempted)
 pub fn all_comparable(keys: &[&RVal]) -> bool {
+    // distinct key texts only (thousands of rows share a handful of keys)
+    let mut seen = std::collections::HashSet::new();
+    let keys: Vec<&RVal> = keys.iter().copied().filter(|k| seen.insert(k.to_json())).collect();
     for i in 0..keys.len() {
         for j in i + 1..keys.len() {
             if cmp3(keys[i], keys[j]).is_none() {
@@ -213,7 +216,8 @@ pub fn all_comparable(keys: &[&RVal]) -> bool {
             }
         }
     }
-    true
+    // a key that is not comparable with itself (an integer beyond 2^53) never sorts
+    keys.iter().all(|k| cmp3(k, k).is_some())
 }
 
 // ---------------------------------------------------------------- decimals (number as string)
